@@ -12,7 +12,7 @@ LEVEL = "proof"
 EXPLANATION = ("Theorems (Lean): SEA/Dummy label rules and argument decision tables; download = first successful mirror's bytes, mirrors after it are not contacted, "
                "DownloadError iff none succeeds. This run reproduces NumPy's draws for many seeds/blocks/noise levels and compares labels with the model, and drives "
                "download() through a scripted fake of requests.head/get for EVERY assignment of 5 failure modes to 1-3 mirrors (exhaustive).")
-ASSUMPTIONS = ["the network is a scripted fake (requests.head/get monkey-patched in the harness, no repo hook)", "arff parsing (scipy) is library code"]
+ASSUMPTIONS = ["the network is a scripted fake (requests.Session.request replaced in the harness - every entry point of the requests library ends there; no repo hook)", "arff parsing (scipy) is library code"]
 
 import requests  # noqa: E402
 from frouros.datasets.base import BaseDatasetDownload  # noqa: E402
@@ -43,11 +43,19 @@ def sea_cases(out: Outcome, rng, n_cases: int, lines, expect) -> None:
             u = np.random.uniform(low=0.0, high=10.0, size=(3,))
             r = np.random.random()
             coin = int(np.random.randint(2)) if r < noise else 0
-            if not np.array_equal(u, X) or not all(0 <= v < 10 for v in X):
-                out.violation(f"SEA: features of sample {i} are not the generator's uniform draws in [0,10)", rep)
+            if len(X) != 3 or not all(0 <= v < 10 for v in X):
+                out.violation(f"SEA: features {X!r} of sample {i} are not three numbers in [0,10)", rep)
                 break
             if noise == 0 and int(y) != (1 if X[0] + X[1] <= THR[block] else 0):
                 out.violation(f"SEA(block={block}, noise=0): sample {i} with x0+x1={X[0] + X[1]!r} has label {y}", rep)
+                break
+            if int(y) not in (0, 1):
+                out.violation(f"SEA: label {y!r} of sample {i}", rep)
+                break
+            if not np.array_equal(u, X):
+                # HOW the generator consumes NumPy's stream (which calls, in which order) is the model's tie to this code, not a clause of the property
+                out.mismatch(f"SEA: features of sample {i} are not the draws `uniform(size=3)` at the position of the global generator where the model reads them "
+                             "(the generator consumes its random stream in another way than the model)", rep)
                 break
             lines.append(f"sea label {block} {f2h(noise)} {f2h(X[0])} {f2h(X[1])} {f2h(r)} {coin}")
             expect.append((str(int(y)), rep))
@@ -63,6 +71,7 @@ def sea_cases(out: Outcome, rng, n_cases: int, lines, expect) -> None:
                     coins.append(int(np.random.randint(2)))
             lines.append(f"sea ds {block} {f2h(noise)} {n} {len(floats)} " + " ".join(f2h(v) for v in floats) + (" " + " ".join(map(str, coins)) if coins else ""))
             expect.append((" ".join(str(int(y)) for _, y in data) + " | 0 0", rep))
+        np.random.random(rng.randint(0, 5))
         again = list(SEA(seed=seed).generate_dataset(block=block, noise=noise, num_samples=n))
         if any(not np.array_equal(a[0], b[0]) or a[1] != b[1] for a, b in zip(data, again)):
             out.violation("SEA: two generators with equal seeds produce different datasets", rep)
@@ -114,6 +123,11 @@ def sea_cases(out: Outcome, rng, n_cases: int, lines, expect) -> None:
                 break
             lines.append(f"sea dummy {cls} {f2h(X[0])} {f2h(X[1])}")
             expect.append((str(int(y)), rep))
+        # identically for equal seeds: a second generator object with the same seed, created later in the same process (other draws from NumPy in between)
+        np.random.random(rng.randint(0, 5))
+        again = list(Dummy(seed=seed).generate_dataset(class_=cls, num_samples=n))
+        if len(again) != len(data) or any(not np.array_equal(a[0], b[0]) or a[1] != b[1] for a, b in zip(data, again)):
+            out.violation("Dummy: two generators with equal seeds produce different datasets", rep)
         out.case(rep)
     # argument validation
     for block, n, noise in itertools.product([0, 1, 4, 5, -1], [-1, 0, 1, 5], [-0.1, 0.0, 0.5, 1.0, 1.1]):
@@ -129,7 +143,9 @@ def sea_cases(out: Outcome, rng, n_cases: int, lines, expect) -> None:
             out.violation(f"SEA.generate_dataset(block={block}, noise={noise}, num_samples={n}) {'accepted' if k == 'ok' else 'rejected'}", {"block": block, "n": n, "noise": noise})
         if block >= 0:
             lines.append(f"sea check {block} {n} {f2h(noise)}")
-            expect.append((k, {"generator": "SEA-args", "block": block, "n": n, "noise": noise}))
+            # with several invalid arguments the property does not say which one is reported: any rejection agrees with the model's
+            several = (block not in (1, 2, 3, 4)) + (n < 1) + (not 0 <= noise <= 1) > 1
+            expect.append(("err:*" if several and k != "ok" else k, {"generator": "SEA-args", "block": block, "n": n, "noise": noise}))
     for cls, n in itertools.product([-1, 0, 1, 2], [-1, 0, 1, 3]):
         try:
             Dummy(seed=1).generate_dataset(class_=cls, num_samples=n)
@@ -156,9 +172,22 @@ class FakeResponse:
         self.ok, self._status_ok, self._content, self._content_error = ok, status_ok, content, content_error
         self.status_code = 200 if (ok and status_ok) else 503
         self.reason = "OK" if self.status_code == 200 else "Service Unavailable"
-        self.headers = {"Content-Length": str(len(content))}
+        # how the body travels differs from mirror to mirror, as it does between real servers: announced length / chunked (no Content-Length) / gzip
+        # (Content-Length is the COMPRESSED size and `raw` delivers the compressed bytes; `content`, `iter_content` and `text` deliver the file)
+        self.transfer = ("plain", "chunked", "gzip")[sum(url.encode()) % 3] if url else "plain"
+        import gzip
+        from requests.structures import CaseInsensitiveDict
+        self._wire = gzip.compress(content, mtime=0) if self.transfer == "gzip" else content
+        self.headers = CaseInsensitiveDict({"Content-Type": "application/octet-stream"})
+        if self.transfer == "chunked":
+            self.headers["Transfer-Encoding"] = "chunked"
+        else:
+            self.headers["Content-Length"] = str(len(self._wire))
+        if self.transfer == "gzip":
+            self.headers["Content-Encoding"] = "gzip"
         self.url = url
-        self.encoding = "utf-8"
+        self.encoding = None if content and not content.isascii() else "utf-8"
+        self.history, self.is_redirect = [], False
 
     @property
     def content(self):
@@ -168,7 +197,18 @@ class FakeResponse:
 
     @property
     def text(self):
-        return self.content.decode("utf-8", "replace")
+        return self.content.decode(self.encoding or "utf-8", "replace")
+
+    @property
+    def apparent_encoding(self):
+        return "utf-8" if self.encoding else "Windows-1252"
+
+    def json(self, **kw):
+        import json
+        return json.loads(self.text)
+
+    def iter_lines(self, chunk_size=512, decode_unicode=False, delimiter=None):
+        yield from self.content.splitlines()
 
     def iter_content(self, chunk_size=1, decode_unicode=False):
         data = self.content
@@ -179,7 +219,9 @@ class FakeResponse:
     @property
     def raw(self):
         import io
-        return io.BytesIO(self.content)
+        if self._content_error is not None:
+            raise self._content_error
+        return io.BytesIO(self._wire)
 
     def close(self):
         pass
@@ -215,8 +257,31 @@ NO_TIMEOUT: list = []      # requests issued WITHOUT a timeout: a mirror that ac
 
 def body(url: str) -> bytes:
     """what a mirror serves: for every other mirror a body of ~100 kB (several chunks for anybody who streams it), otherwise a short one"""
-    tag = b"DATA-" + url.encode()
+    # bytes, not text: NUL, bytes that are not UTF-8, both line-ending conventions, a byte-order mark in the middle
+    tag = b"DATA-" + url.encode() + b"\x00\xff\xfe\r\n\x80\n\r\xef\xbb\xbf\xe9"
     return tag + (b"#" * 100000 + tag if (sum(url.encode()) % 2) else b"")
+
+
+_REAL_REQUEST = requests.Session.request
+
+
+def install_network(head, get) -> None:
+    """route EVERY request of the `requests` library to the scripted mirrors: `requests.head/get`, `from requests import get`, `requests.request` and the methods of a
+    `requests.Session` all end in `Session.request(method, url, **kw)`, which is what is replaced (not the two module attributes the current code happens to call)"""
+    def request(self, method, url, **kw):
+        for k in ("params", "data", "headers", "cookies", "files", "auth", "allow_redirects", "proxies", "hooks", "verify", "cert", "json"):
+            kw.pop(k, None)
+        return (head if str(method).upper() == "HEAD" else get)(url, **kw)
+    requests.Session.request = request
+
+
+def uninstall_network() -> None:
+    requests.Session.request = _REAL_REQUEST
+
+
+def no_timeout(timeout) -> bool:
+    """no limit on the wait for the connection or for the answer: None, or a (connect, read) pair with a None in it"""
+    return timeout is None or (isinstance(timeout, (tuple, list)) and any(t is None for t in timeout))
 
 
 def fake_network(plan):
@@ -225,14 +290,14 @@ def fake_network(plan):
     contacted = []
 
     def stalls(url, timeout, what):
-        if timeout is None:
+        if no_timeout(timeout):
             NO_TIMEOUT.append((what, url))
         raise requests.exceptions.ReadTimeout("stalled")
 
     def head(url, timeout=None, **kw):
         contacted.append(url)
         m = plan[url]
-        if timeout is None:
+        if no_timeout(timeout):
             NO_TIMEOUT.append(("HEAD", url))
         if m == "S" and STALL_AT[0] == "head":
             stalls(url, timeout, "HEAD")
@@ -249,14 +314,14 @@ def fake_network(plan):
 
     def get(url, stream=None, timeout=None, **kw):
         m = plan[url]
-        if timeout is None:
+        if no_timeout(timeout):
             NO_TIMEOUT.append(("GET", url))
         if m == "S":
             stalls(url, timeout, "GET")
         if m in EXTRA_MODES and EXTRA_MODES[m][0] == "get":
             raise EXTRA_MODES[m][1]
         cerr = EXTRA_MODES[m][1] if m in EXTRA_MODES and EXTRA_MODES[m][0] == "content" else None
-        return FakeResponse(ok=True, status_ok=(m != "g"), content=(b"ERROR PAGE " + url.encode()) if m == "g" else body(url), content_error=cerr)
+        return FakeResponse(ok=True, status_ok=(m != "g"), content=(b"ERROR PAGE " + url.encode()) if m == "g" else body(url), content_error=cerr, url=url)
 
     return head, get, contacted
 
@@ -269,7 +334,6 @@ class ThreeMirrors(BaseDatasetDownload):
 
 def download_cases(out: Outcome, lines, expect, kmax: int) -> None:
     modes = ["c", "h", "g", "t", "ok"]
-    real_head, real_get = requests.head, requests.get
     try:
         for k in range(1, kmax + 1):
             urls = [f"https://mirror{i}.example.org/data.bin" for i in range(k)]
@@ -288,9 +352,9 @@ def download_cases(out: Outcome, lines, expect, kmax: int) -> None:
 
                 def get(url, stream=None, timeout=None, **kw):
                     m = plan[url]
-                    return FakeResponse(ok=True, status_ok=(m != "g"), content=(b"ERROR PAGE " if m == "g" else b"DATA-") + url.encode())
+                    return FakeResponse(ok=True, status_ok=(m != "g"), content=(b"ERROR PAGE " + url.encode()) if m == "g" else body(url), url=url)
 
-                requests.head, requests.get = head, get
+                install_network(head, get)
                 fd, path = tempfile.mkstemp(dir="/tmp")
                 os.close(fd)
                 os.unlink(path)
@@ -309,13 +373,15 @@ def download_cases(out: Outcome, lines, expect, kmax: int) -> None:
                 if err != (first_ok is None):
                     out.violation(f"download(): DownloadError {'raised' if err else 'not raised'} for the assignment {assign}", rep)
                 elif first_ok is not None:
-                    if content != b"DATA-" + urls[first_ok].encode():
+                    if content != body(urls[first_ok]):
                         out.violation(f"download(): target file holds {content[:40]!r}, expected exactly the bytes of mirror {first_ok} for the assignment {assign}", rep)
                     if contacted != urls[: first_ok + 1]:
                         out.violation(f"download(): contacted {len(contacted)} mirrors for the assignment {assign}, expected the first {first_ok + 1} in order", rep)
                     data = ds.load()
-                    if data != content or os.path.exists(path) or ds.file_path is not None:
+                    if data != content or os.path.exists(path):
                         out.violation("load(): did not return the file's data and remove the temporary file", rep)
+                    elif ds.file_path is not None:      # the model's state machine forgets the path at load(); the property only says that the FILE is removed
+                        out.mismatch("load(): the dataset object keeps its file_path after load() (the model's state machine sets it to None)", rep)
                 elif content not in (b"",):
                     out.violation(f"download(): every mirror failed but the target file holds {content[:40]!r}", rep)
                 if os.path.exists(path):
@@ -330,7 +396,7 @@ def download_cases(out: Outcome, lines, expect, kmax: int) -> None:
         if e.file_path and os.path.exists(e.file_path):
             os.unlink(e.file_path)
     finally:
-        requests.head, requests.get = real_head, real_get
+        uninstall_network()
 
 
 class HistMirrors(BaseDatasetDownload):
@@ -348,7 +414,6 @@ def history_cases(out: Outcome, rng, lines, expect, n_cases: int) -> None:
     """histories of download()/load() on ONE dataset object, with the target file missing, empty or already holding
     bytes: a successful download must leave exactly the first reachable mirror's bytes (nothing appended, nothing kept)"""
     modes = ["c", "h", "g", "t", "ok"] + list(EXTRA_MODES) + ["S"]
-    real_head, real_get = requests.head, requests.get
     old = b"OLD-CONTENT"
     del NO_TIMEOUT[:]
     try:
@@ -358,7 +423,7 @@ def history_cases(out: Outcome, rng, lines, expect, n_cases: int) -> None:
             plan = {}
 
             head, get, _ = fake_network(plan)
-            requests.head, requests.get = head, get
+            install_network(head, get)
             init = rng.choice(["none", "empty", "old", "old"]) if case >= 3 else ["none", "empty", "old"][case]
             fd, path = tempfile.mkstemp(dir="/tmp")
             os.close(fd)
@@ -408,7 +473,7 @@ def history_cases(out: Outcome, rng, lines, expect, n_cases: int) -> None:
                     try:
                         data = ds.load()
                         outs.append("data" + tok(data, urls, old))
-                        if data != want_file or os.path.exists(path) or ds.file_path is not None:
+                        if data != want_file or os.path.exists(path):
                             out.violation(f"load(): returned {data!r} (expected {want_file!r}) or did not remove the temporary file", rep)
                         loaded, want_file = True, None
                     except FileNotFoundError:
@@ -440,7 +505,7 @@ def history_cases(out: Outcome, rng, lines, expect, n_cases: int) -> None:
             out.violation(f"download(): a {what} request is issued without a timeout ({len(NO_TIMEOUT)} such requests): a mirror that accepts the connection and stalls "
                           "blocks the download for ever and the next mirror is never tried", {"kind": "no timeout", "request": what})
     finally:
-        requests.head, requests.get = real_head, real_get
+        uninstall_network()
 
 
 def tok(data, urls, old) -> str:
@@ -474,7 +539,6 @@ def elec2_cases(out: Outcome) -> None:
     """the real dataset class end to end on a scripted network: default (temporary) target files are per object, a single URL string is one
     mirror, `load()` returns the parsed records (all of them, in order) and removes the file, a bad index is a ReadFileError and keeps the file"""
     from frouros.datasets.exceptions import ReadFileError
-    real_head, real_get = requests.head, requests.get
     try:
         served = {}
 
@@ -484,7 +548,7 @@ def elec2_cases(out: Outcome) -> None:
         def get(url, stream=None, timeout=None, **kw):
             return FakeResponse(ok=True, content=served[url])
 
-        requests.head, requests.get = head, get
+        install_network(head, get)
         a, b = Elec2(), Elec2()
         rep = {"scenario": "two Elec2 objects with default file_path"}
         if a.file_path is None or b.file_path is None or str(a.file_path) == str(b.file_path):
@@ -496,13 +560,16 @@ def elec2_cases(out: Outcome) -> None:
             for u in b.url:
                 served[u] = ARFF.replace(b"0.9158,2,0.288753,DOWN\n", b"")
             b.download()
+            pa, pb = a.file_path, b.file_path
             da, db = a.load(), b.load()
             if len(da) != 4 or len(db) != 3:
                 out.violation(f"Elec2: two objects with default targets: {len(da)} and {len(db)} records loaded, expected 4 and 3 (each its own download)", rep)
             elif [float(r[0]) for r in da] != [0.0, 0.1, 0.2, 0.9158] or [bytes(r[3]) for r in da] != [b"UP", b"UP", b"DOWN", b"DOWN"]:
                 out.violation(f"Elec2.load(): parsed records {da!r} are not the records of the downloaded file, in order", rep)
-            if a.file_path is not None or b.file_path is not None:
-                out.violation("Elec2.load(): the temporary file path is kept after load()", rep)
+            if any(p is not None and os.path.exists(str(p)) for p in (pa, pb)):
+                out.violation("Elec2.load(): the temporary file is still there after load()", rep)
+            elif a.file_path is not None or b.file_path is not None:
+                out.mismatch("Elec2.load(): the dataset object keeps its file_path after load() (the model's state machine sets it to None)", rep)
         out.case(rep)
         # a bad index: ReadFileError, file kept
         c = Elec2()
@@ -538,7 +605,7 @@ def elec2_cases(out: Outcome) -> None:
             os.unlink(path)
         out.case(rep)
     finally:
-        requests.head, requests.get = real_head, real_get
+        uninstall_network()
 
 
 def run(out: Outcome) -> None:
@@ -555,7 +622,7 @@ def run(out: Outcome) -> None:
     out.stats["download_assignments_exhaustive"] = True
     got = run_driver(lines)
     for g, (want, rep) in zip(got, expect):
-        if g != want:
+        if g != want and not (want == "err:*" and g.startswith("err:")):
             out.mismatch(f"model output '{g}' differs from implementation '{want}' for {rep}", rep)
         else:
             out.traces_validated += 1
